@@ -161,6 +161,17 @@ func judgeApply(c *core.Ctx, sc *SeqCase, o V5Opts, res ApplyResult, want ref.Re
 	return true
 }
 
+// c01RunHuge: as c01Run, with index tokens beyond the int range read as plain out-of-range indices.
+func c01RunHuge(c *core.Ctx, sc *SeqCase, o V5Opts) {
+	r := o.Ref()
+	r.HugeIndices = true
+	want := ref.Eval(sc.Doc, sc.Ops, r)
+	res := ApplyV5(sc.DocText, sc.Patch(), o, "")
+	if judgeApply(c, sc, o, res, want, cmpMode{}) {
+		c.Nontrivial(sc.Canon(), o.String())
+	}
+}
+
 func c01Run(c *core.Ctx, sc *SeqCase, o V5Opts) {
 	want := ref.Eval(sc.Doc, sc.Ops, o.Ref())
 	res := ApplyV5(sc.DocText, sc.Patch(), o, "")
@@ -211,6 +222,35 @@ func init() {
 			return out
 		},
 		Families: []core.Family{
+			{Name: "indices-beyond-the-int-range", Exhaustive: true, Count: func(core.Tier) int { return len(hugeIdxToks18) * 5 * 2 * 2 }, Run: func(c *core.Ctx, idx int) {
+				tok := hugeIdxToks18[idx%len(hugeIdxToks18)]
+				idx /= len(hugeIdxToks18)
+				kind := idx % 5
+				idx /= 5
+				neg := idx%2 == 0
+				doc, arr := `["a","b","c"]`, ""
+				if idx/2 == 1 {
+					doc, arr = `{"l":["a","b","c"],"k":1}`, "/l"
+				}
+				var op ref.Op
+				var text string
+				path := arr + "/" + tok
+				switch kind {
+				case 0:
+					op, text = ref.Op{Kind: "remove", Path: path}, OpText("remove", path, "", "", false)
+				case 1:
+					op, text = ref.Op{Kind: "test", Path: path, Value: mustParse(`"a"`), HasValue: true}, OpText("test", path, "", `"a"`, true)
+				case 2:
+					op, text = ref.Op{Kind: "replace", Path: path, Value: mustParse(`"z"`), HasValue: true}, OpText("replace", path, "", `"z"`, true)
+				case 3:
+					op, text = ref.Op{Kind: "move", From: path, Path: arr + "/0"}, OpText("move", arr+"/0", path, "", false)
+				default:
+					op, text = ref.Op{Kind: "copy", From: path, Path: arr + "/0"}, OpText("copy", arr+"/0", path, "", false)
+				}
+				sc := &SeqCase{DocText: doc, Doc: mustParse(doc), Ops: []ref.Op{op}, OpTexts: []string{text}}
+				c01RunHuge(c, sc, V5Opts{NegIdx: neg, EscapeHTML: true})
+				c.Count("huge-index:cases")
+			}},
 			{Name: "single-op-exhaustive", Exhaustive: true, Count: func(core.Tier) int { return nSingles() }, Run: func(c *core.Ctx, idx int) {
 				s := singleCases[idx]
 				sc := &SeqCase{DocText: fixedDocs[s.doc], Doc: mustParse(fixedDocs[s.doc]), Ops: []ref.Op{s.op}, OpTexts: []string{s.text}}
